@@ -1,5 +1,6 @@
 """per-property configuration: which theorems/families/oracles decide it"""
 import itertools
+import os
 import json
 import random
 import time
@@ -226,6 +227,30 @@ def run_oracle(prop, tier, rng, inputs, known):
     return fails, stats
 
 
+CENSUS_CORPUS = {"minmax_aggregates.py": ["minmax"], "sum_aggregates.py": ["sumchains"], "cleanup.py": ["cleanup"],
+                 "literal_duplication.py": ["duplication"], "unused.py": ["unused"], "symmetry.py": ["symmetry"],
+                 "projection.py": ["projection"], "inline.py": ["inline"], "dependency.py": ["dependency", "minmax", "sumchains"],
+                 "normalize.py": ["normalize"], "math_simplification.py": ["math", "repo-tests:"]}
+
+
+def _census_hot_words():
+    """files whose purity census differs from the audited list in Link/PurityCensus.v -> corpus name fragments"""
+    import re
+    from . import census, common
+    try:
+        sites, state = census.census(os.path.join(common.REPO, "src", "ngo"))
+        txt = open(os.path.join(common.COQ, "Link", "PurityCensus.v"), encoding="utf-8").read()
+        aud = set((a, b, c.replace('""', '"')) for a, b, c in re.findall(r'\(\("((?:[^"]|"")*)", "((?:[^"]|"")*)", "((?:[^"]|"")*)"\)', txt))
+        cur = set(sites) | set(state)
+        files = {x[0] for x in cur ^ aud}
+    except Exception:  # pylint: disable=broad-except
+        return []
+    words = []
+    for f in sorted(files):
+        words.extend(CENSUS_CORPUS.get(f, []))
+    return words
+
+
 def search(prop, tier, rng, inputs, fam_results, known):
     """after an obligation broke: look for a concrete failing input of the *property*"""
     budget = 900 if tier == "thorough" else 60
@@ -255,6 +280,16 @@ def search(prop, tier, rng, inputs, fam_results, known):
                 extra.append({"text": m, "origin": c["origin"] + "+sign-mutant"})
         cands = [dict(pl, n_instances=40) for c in cands + extra for pl in semprops.payloads(prop, [c])]
         stream = itertools.chain(cands, oracle_cases(prop, tier, rng, inputs, fixed_only=False), gen)
+        if prop == "C17":
+            # a purity obligation broke: first look for hash-seed dependence in fresh interpreters (8 seeds each)
+            pool = [pl for i in inputs if i["origin"].startswith(("corpus:", "repo-tests:"))
+                    for pl in semprops.payloads(prop, [i])]
+            rng.shuffle(pool)
+            hot = _census_hot_words()
+            if hot:     # programs from the corpus of the pass whose census entry changed come first
+                pool.sort(key=lambda pl: 0 if any(h in pl.get("origin", "") for h in hot) else 1)
+            budget = max(budget, 240)
+            stream = itertools.chain(cands, (dict(pl, xproc=True, runs=8) for pl in pool[:1500]), stream)
         while time.time() - t0 < budget:
             batch = list(itertools.islice(stream, 128))
             if not batch:
